@@ -261,6 +261,26 @@ def network_work(exe, family, start, n):
     return part.dump()
 
 
+def exec_work(exes, family, start, n):
+    from checks import c19
+    part = common.Partial()
+    rnd = common.rng(PID, "m4", family, start)
+    for i in range(n):
+        case = plan.GEN[family](rnd, start + i)
+        upt = rnd.choice(["1", "1/2", "2", "5", "3/2"])
+        p_delay, p_fail, seed = rnd.choice([0, 20, 40]), rnd.choice([0, 0, 10]), rnd.randint(1, 10 ** 6)
+        out, crash = c19.run_history(exes["asan"], case["text"], upt, seed, 120, p_delay, p_fail, timeout=120)
+        part.count("executor: histories under ASan/UBSan")
+        if crash is not None and crash.timeout:
+            part.inconc("executor history did not finish in 120 s")
+            continue
+        part.case(common.fingerprint([case["text"], upt, seed, p_delay, p_fail]), True, {"family": family, "units_per_tick": upt, "seed": seed} if i == 0 else None)
+        if crash is not None:
+            part.violation("executor/abort/%s" % site_key(crash), "executing a solved %s plan (units_per_tick %s, delays %d%%, failures %d%%) terminates abnormally: %s" % (family, upt, p_delay, p_fail, crash.site()),
+                           {"family": family, "program": case["text"], "units_per_tick": upt, "seed": seed, "p_delay": p_delay, "p_fail": p_fail, "stderr": (crash.stderr or "")[-2500:]})
+    return part.dump()
+
+
 # ------------------------------------------------------------------------------------------------------------------------------
 def run(tier):
     res = common.Result(PID, tier, "monitor 1: prefixes / delimiter edits of shipped and generated programs, pathological literals and nesting, random bytes and token soups given to "
@@ -291,6 +311,12 @@ def run(tier):
     per_family = 320 if tier == "quick" else 8000
     for fam in ("mixed", "dl", "lra", "reified", "ov", "dlrel"):
         common.pmap(network_work, [(nd, fam, s, 20) for s in range(0, per_family, 20)], res)
+    # monitor 4: executor histories (scripted delays / failures) under ASan/UBSan with assertions on
+    from checks import c19
+    xd = {"asan": build.driver("asan", "exec_drv", libs=("executor", "solver", "core", "riddle", "smt", "json"))}
+    nx = 48 if tier == "quick" else 1200
+    for fam in ("sv", "rr", "tl"):
+        common.pmap(exec_work, [(xd, fam, s, 4) for s in range(0, nx, 4)], res)
     if tier == "thorough":
         from checks import fuzz
         fuzz.run_fuzz(res)
